@@ -350,11 +350,19 @@ def gen_storm(st):
         scn["pct_points"] = [st.draw(0, 120, "pct-point") for _ in range(st.draw(0, 3, "pct-d"))]
     na = st.weighted((3, 4, 3, 2, 1, 1), "n-actors-class")
     n_actors = na + 1 if na < 4 else (st.draw(5, 8) if na == 4 else st.draw(9, 16))
+    # one storm in eight is ONE process making 3..7 loads one after the other (G-sequence): "a later load returns
+    # exactly that data" also within a process, whose module-level state (memo tables, caches) lives on between
+    # the loads while the caller edits what it was given
+    seq = st.coin(1, 8, "one-process-sequence")
+    if seq:
+        scn["discipline"] = "serial"
+        scn["one_process"] = True
+        n_actors = st.draw(3, 7, "sequence-length")
     mask = [k for k in FAULT_KINDS if st.coin(1, 2, "enable-" + k)]
     fault_num = st.draw(0, 3, "fault-rate")
     scn["enabled"] = mask
     scn["partition"] = [st.pick((0.0, 1.0, 10.0)), st.pick((0.5, 5.0, 60.0, 300.0))] if st.coin(1, 8, "partition?") else None
-    crashes_on = not st.coin(1, 5, "no-crashes")
+    crashes_on = not st.coin(1, 5, "no-crashes") and not seq
     scn["same_pid"] = n_actors > 1 and st.coin(1, 8, "same-pid-namespaces")
     actors = []
     for i in range(n_actors):
@@ -380,7 +388,7 @@ def gen_storm(st):
             a["force"] = st.coin(1, 4, "force")
             a["n_retries"] = None if st.coin(1, 2, "default-retries") else st.draw(0, 4, "n_retries")
             a["delay"] = st.pick((None, 0.0, 0.25, 5.0), "delay")
-        a["unpack"] = st.coin(1, 4, "unpack")
+        a["unpack"] = st.coin(1, 2 if seq else 4, "unpack")
         r = DEFAULT_RETRIES if a["n_retries"] is None else a["n_retries"]
         a["plan"] = gen_plan(st, r, fault_num, mask)
         ck = st.weighted((5, 3, 3), "crash-kind") if crashes_on else 0
@@ -389,7 +397,7 @@ def gen_storm(st):
         elif ck == 2:
             a["crash_site"] = [st.pick(CRASH_SITES, "crash-site"), st.draw(1, 3, "crash-occ")]
         sa = st.weighted((5, 2, 1), "start")
-        a["start_after"] = 0 if sa == 0 else (st.draw(1, 60) if sa == 1 else st.draw(61, 400))
+        a["start_after"] = 0 if sa == 0 or seq else (st.draw(1, 60) if sa == 1 else st.draw(61, 400))
         a["speed"] = st.pick((1.0, 1.0, 1.0, 3.0, 30.0, 1000.0), "speed")
         a["split"] = st.draw(0, 7, "split-write")
         a["collide"] = i > 0 and st.coin(1, 10, "collide")
